@@ -48,6 +48,9 @@ type nameSpace struct {
 	// derivedNames holds the names of the context-specific copies of templates that
 	// the escaper has added to the set.
 	derivedNames map[string]bool
+	// pristine holds, for every template the escaper has looked at, a copy of its parse
+	// tree taken before any analysis was committed to it.
+	pristine map[string]*parse.Tree
 }
 
 // Templates returns a slice of the templates associated with t, including t
